@@ -166,6 +166,13 @@ def _nilout(e):
     return None
 
 
+def _neither(e):
+    if e.get('outcome') in ('result', 'error', 'returned'):
+        e['outcome'] = 'neither'
+        return e
+    return None
+
+
 PROPS = {
     'C11': dict(
         tv=dict(module='ScannerTrace', cfg='ScannerTrace.cfg'),
@@ -283,6 +290,12 @@ PROPS = {
         mc=[],
         corrupt=[('turn a value outcome into nil', _nilout)],
         exhaustive_part=False,
+    ),
+    'C03': dict(
+        tv=dict(module='OutcomeTrace', cfg='OutcomeTrace.cfg'),
+        mc=[],
+        corrupt=[('turn a normal return into neither', _neither)],
+        exhaustive_part=True,
     ),
 }
 
@@ -496,5 +509,18 @@ DOC = {
              '(only direct = via-expression is checked there); Sqr is checked as the alias of Sqrt it is registered as; Choose(0, ...), '
              'Empty("") and the seventh argument of Date are left open.',
         technique='TLA+ reference semantics of the function library (FunctionsTrace) + TLC trace validation of name x spelling x argument-list x manager calls',
+    ),
+    'C03': dict(
+        level='Outcome.tla states the protocol: every public call ends in a normal return, an evaluating call in exactly one of a non-nil '
+              'result or a non-nil error; panic, neither, both and hang are the bad terminal states (invariant: never reached). The recorder '
+              'runs every call under recover and a watchdog and OutcomeTrace.tla classifies each one. Inputs: every operator, postfix and '
+              'function form over variables x 13 boundary assignments of every supported type (division by zero, out-of-range indexes and '
+              'shifts, null operands, NaN/Inf, extremes, non-ASCII), every expression / template string up to the bound over the significant '
+              'characters, brace structures, the four tokenizers under option sets, the three quote codecs, mutated and random inputs, '
+              'every operator and Convert on pairs of the boundary pool under both managers, and every function with 0..8 arguments.',
+        note='Trusted: TLC, Json module, recorder (recover + 3 s watchdog as the observation of panic / non-termination). Documented '
+             'precondition panics of configuration setters and of Variant.As* on the wrong type are API misuse, not untrusted input, and are '
+             'not driven. Coverage-guided fuzzing is not used; inputs are exhaustive small alphabets plus seeded random/mutated strings.',
+        technique='TLA+ outcome protocol (Outcome) + TLC trace validation of exhaustive small and random inputs executed under recover and a watchdog',
     ),
 }
